@@ -166,6 +166,8 @@ def nested_containers_case(_=None):
       'NamedTuple all fields': lambda: Spec((inner(4),), 't'),
       'one-field namedtuple': lambda: One({'k': inner(5)}),
       'namedtuple inside containers': lambda: [Point(1, 2), {'p': Point(inner(6), One(inner(7)))}],
+      'subclass of a namedtuple class': lambda: pool.Span(inner(12), [inner(13)]),
+      'subclass of a NamedTuple class, in containers': lambda: {'s': [pool.LabelledPt(inner(14)), pool.Span(1, inner(15))]},
       'defaultdict': lambda: collections.defaultdict(list, a=[inner(8)]),
       'tuple / list / dict': lambda: ([inner(9), (inner(10),)], {'d': (1, [2, inner(11)])}),
   }
